@@ -249,7 +249,8 @@ func genHist(r *rand.Rand, enc *json.Encoder, cfg Cfg, id int, depth int) {
 			length[b] = len(pre)
 			holds[b] = hold{}
 		case 1, 2, 3:
-			i, k := 1+r.Intn(len(cat)), 1+r.Intn(2)
+			i := 1 + r.Intn(len(cat))
+			k := 1 + r.Intn(len(cat[i-1].Vals))
 			conv := []string{"ptr", "val"}[r.Intn(2)]
 			steps = append(steps, sysStep{Act: "marshal", B: b, Pre: []int{}, I: i, K: k, Conv: conv})
 			if length[b] == 0 {
@@ -265,7 +266,8 @@ func genHist(r *rand.Rand, enc *json.Encoder, cfg Cfg, id int, depth int) {
 			if length[b] == 0 {
 				continue
 			}
-			i, k := 1+r.Intn(len(cat)), 1+r.Intn(2)
+			i := 1 + r.Intn(len(cat))
+			k := 1 + r.Intn(len(cat[i-1].Vals))
 			steps = append(steps, sysStep{Act: "reuse", B: b, Pre: []int{}, I: i, K: k, Conv: "ptr"})
 			holds[b] = hold{i, k}
 			length[b] = k - 1
